@@ -7,3 +7,5 @@ var ProbeNames = map[int]string{}
 func Run(seed uint64, index int64, o hx.Opts) *hx.Result {
 	return &hx.Result{Property: "c18", Index: index, Seed: seed, Discarded: "not implemented"}
 }
+
+func EnumSize() int64 { return 0 }
